@@ -466,8 +466,12 @@ def s_scripts():
         ln = st.one_of(st.sampled_from(good), hlen)
         return st.builds(lambda hd, n, f, b, tl: {"shape": name, "script": (hd + pre + _push(b[:n], f) + post + tl).hex()},
                          head, ln, form, blob, tail)
-    witness = st.builds(lambda v, n, f, b, tl: {"shape": "witness", "script": (bytes([v]) + _push(b[:n], f) + tl).hex()},
-                        st.one_of(st.sampled_from([0x00, 0x51]), st.sampled_from([0x00, 0x4f, 0x50] + list(range(0x51, 0x62)))),
+    # the version as its opcode, or as some other push of the same (or a nearby) value: 4c00 / 4d0000 push the empty
+    # string like OP_0 does, 0101 / 4c0101 push the byte 01 like OP_1 does
+    alt_version = st.sampled_from([b"\x4c\x00", b"\x4d\x00\x00", b"\x4e\x00\x00\x00\x00", b"\x01\x01", b"\x4c\x01\x01",
+                                   b"\x4d\x01\x00\x01", b"\x01\x00", b"\x01\x02", b"\x01\x10", b"\x01\x81", b"\x02\x01\x00"])
+    witness = st.builds(lambda v, n, f, b, tl: {"shape": "witness", "script": ((bytes([v]) if isinstance(v, int) else v) + _push(b[:n], f) + tl).hex()},
+                        st.one_of(st.sampled_from([0x00, 0x51]), st.sampled_from([0x00, 0x4f, 0x50] + list(range(0x51, 0x62))), alt_version),
                         st.one_of(hlen, st.integers(2, 40)), form, blob, tail)
     keylen = st.sampled_from([33, 33, 33, 65, 65, 32, 34, 64, 66, 76, 120, 121])
 
